@@ -247,11 +247,16 @@ type PartSetReader struct {
 }
 
 func NewPartSetReader(parts []*Part) *PartSetReader {
-	return &PartSetReader{
+	psr := &PartSetReader{
 		i:      0,
 		parts:  parts,
-		reader: bytes.NewReader(parts[0].Bytes),
+		reader: bytes.NewReader(nil),
 	}
+	// A set made from zero bytes of data has no parts: it reads as empty.
+	if len(parts) > 0 {
+		psr.reader = bytes.NewReader(parts[0].Bytes)
+	}
+	return psr
 }
 
 func (psr *PartSetReader) Read(p []byte) (n int, err error) {
